@@ -22,6 +22,8 @@ def split_files(g, ir, rnd):
     def render(t, ns, top):
         k = t["k"]
         if k == "prim":
+            if "lt" in t or t.get("ult"):
+                return g.render(t)             # logical / unknown annotations in object form
             return t["name"] if rnd.random() < 0.9 else {"type": t["name"]}
         if k == "ref":
             return ref_spelling(t["full"], ns)
@@ -117,7 +119,7 @@ def run_c19(ctx, fa):
         while len(cases) < n and tries < 10 * n:
             tries += 1
             mode = rnd.random()
-            g = gen.Gen(rnd, logical=rnd.random() < 0.25, max_depth=rnd.choice([2, 3, 3, 4]), big=False, recursive=False, ns=mode < 0.75)
+            g = gen.Gen(rnd, logical=rnd.random() < 0.5, max_depth=rnd.choice([2, 3, 3, 4]), big=False, recursive=False, ns=mode < 0.75)
             g.letter_suffixes = True
             if mode < 0.75:
                 # every type lives in a namespace so that every reference can be spelled from everywhere
